@@ -7,7 +7,9 @@ from typing import Any, Dict, List, Tuple
 from .. import core, hub, proto as P
 from ..hub import T1, T2, T3, ALL, HubConfig
 
-IDS = {"A": (11, 0), "B": (12, 0), "C": (13, 0), "G": (60, 1), "H": (61, 1), "M": (90, 0)}
+# P and Q are two instances of one module id (both allow multiple instances)
+IDS = {"A": (11, 0), "B": (12, 0), "C": (13, 0), "G": (60, 1), "H": (61, 1), "M": (90, 0), "P": (70, 0), "Q": (70, 0)}
+SIBLINGS = "PQ"
 
 
 def _ops(cfg: HubConfig, info) -> List[Tuple[str, List[List]]]:
@@ -18,7 +20,7 @@ def _ops(cfg: HubConfig, info) -> List[Tuple[str, List[List]]]:
     for s in cfg.subscribers:
         if s not in present:
             if s in cfg.churn:
-                out.append((f"connect2({s})", a.connect_v2(s, name=s.encode()))) if s != "B" else out.append(
+                out.append((f"connect2({s})", a.connect_v2(s, name=s.encode(), allow_multiple=int(s in SIBLINGS)))) if s != "B" else out.append(
                     (f"connect1({s})", a.connect_v1(s)))
         elif s in live:
             if s in cfg.ctl:
@@ -66,7 +68,7 @@ def build(tier="quick", tc=False, flip=False, subscribers="AB", loggers="G", pai
         init += a.ctl("M", P.MT_SUBSCRIBE, t)
     init += [["settle"]]
     for s in pre:
-        init += (a.connect_v1(s) if s == "B" else a.connect_v2(s, name=s.encode())) + [["settle"]]
+        init += (a.connect_v1(s) if s == "B" else a.connect_v2(s, name=s.encode(), allow_multiple=int(s in SIBLINGS))) + [["settle"]]
         if presub:  # everybody subscribed to T1 from the start (A also to ALL-less individual set, C via ALL)
             init += a.ctl(s, P.MT_SUBSCRIBE, ALL if s == "C" else T1) + [["settle"]]
     cfg = HubConfig(name=f"routing-{int(presub)}-{tier}-tc{int(tc)}-flip{int(flip)}-{subscribers}-{loggers}-{pairs}-{nonwritable}-{churn}-{ctl}-{pre}-{len(types)}-{max(sizes)}",
@@ -101,6 +103,8 @@ def configs(tier: str, props) -> List[Any]:
                     types=(T1,), presub=True, flip=False),
             builder(tier=tier, subscribers="ABC", loggers="", pre="ABC", churn="AB", ctl="", pairs="publish", nonwritable=0, props=props,
                     types=(T1,), presub=True, flip=True),
+            # two instances of one module id (allow_multiple): both are subscribers in their own right, addressed messages reach both
+            builder(tier=tier, subscribers="APQ", loggers="", pre="APQ", ctl="PQ", pairs="none", nonwritable=1, props=props, types=(T1, ALL)),
         ]
     return [
         builder(tier=tier, subscribers="AB", loggers="G", pre="ABG", ctl="ABG", pairs="all", nonwritable=3, props=props,
@@ -115,6 +119,7 @@ def configs(tier: str, props) -> List[Any]:
                 props=props, types=(T1, ALL)),
         builder(tier=tier, tc=True, flip=True, subscribers="AB", loggers="G", churn="ABG", ctl="ABG", pairs="none",
                 nonwritable=1, props=props, types=(T1, ALL)),
+        builder(tier=tier, subscribers="APQ", loggers="G", pre="APQG", ctl="APQ", churn="PQ", pairs="publish", nonwritable=2, props=props, types=(T1, ALL)),
     ]
 
 
